@@ -44,23 +44,24 @@ Section Wf.
   Definition doc_wf (d : nexus_doc) : Prop := Forall (fun p => wf (snd p) = true) (doc_trees d).
   Definition post (p : pres) : Prop := forall d, p = POk d -> doc_wf d.
 
-  Lemma build_trees_wf : forall st names strs l,
-      build_trees nparse st names strs = inl l -> Forall (fun p => wf (snd p) = true) l.
+  Lemma build_trees_wf : forall st names strs tabs l,
+      build_trees nparse st names strs tabs = inl l -> Forall (fun p => wf (snd p) = true) l.
   Proof.
-    intros st. induction names as [|n nr IH]; intros strs l H; simpl in H.
+    intros st. induction names as [|n nr IH]; intros strs tabs l H; simpl in H.
     - inversion H; subst. constructor.
     - destruct strs as [|s sr]; [inversion H; subst; constructor|].
+      destruct tabs as [|tb tr]; [inversion H; subst; constructor|].
       destruct (nparse (s ++ ";")) as [t|e] eqn:E; [|discriminate].
       assert (W : wf t = true) by (eapply nparse_wf; eassumption).
-      destruct (match ns_table st with Some tbl => rename_tree tbl t | None => inl t end) as [t'|e] eqn:R; [|discriminate].
+      destruct (match tb with Some tbl => rename_tree tbl t | None => inl t end) as [t'|e] eqn:R; [|discriminate].
       assert (W' : wf t' = true).
-      { destruct (ns_table st) as [tbl|].
+      { destruct tb as [tbl|].
         - rewrite (rename_tree_wf _ _ _ R). exact W.
         - inversion R; subst. exact W. }
       match type of H with
       | (match ?b with Some _ => _ | None => _ end) = _ => destruct b; [discriminate|]
       end.
-      destruct (build_trees nparse st nr sr) as [l'|e] eqn:B; [|discriminate].
+      destruct (build_trees nparse st nr sr tr) as [l'|e] eqn:B; [|discriminate].
       inversion H; subst. constructor; [exact W'|]. eapply IH. eassumption.
   Qed.
 
@@ -72,7 +73,7 @@ Section Wf.
            end.
     destruct (match ns_data st with Some d0 => check_align st d0 | None => None end); [discriminate|].
     destruct (ns_trees st) as [[names strs]|].
-    - destruct (build_trees nparse st names strs) as [l|e] eqn:B; [|discriminate].
+    - destruct (build_trees nparse st names strs (ns_tabs st)) as [l|e] eqn:B; [|discriminate].
       inversion H; subst. simpl. eapply build_trees_wf. eassumption.
     - inversion H; subst. simpl. constructor.
   Qed.
